@@ -49,6 +49,17 @@ def r1_hash_free(cx):
                            construct="%s over %s -> %s" % (it.kind, short(it.iterable, 70), what))
                 else:
                     cx.ok(it.node, "%s iterates an unordered expression into commutative sinks only" % q, construct="%s over %s" % (it.kind, short(it.iterable, 70)))
+    # what the stage constructors are given must not carry a hash-dependent order either (Keyword numbers its substitutes in list order)
+    init = cm.func("Cleaner.__init__", "C10.R1")
+    stage_names = set(cn for mn, cn in STAGES)
+    for c in [x for x in ast.walk(init) if isinstance(x, ast.Call) and call_name(x) in stage_names]:
+        for a in list(c.args) + [k.value for k in c.keywords]:
+            src = trace(a, init)
+            if kinds.unordered(src, init):
+                cx.bad(c, "%s(...) is configured from the hash-ordered expression '%s': the stage's behaviour (e.g. the numbering of keyword substitutes) depends on PYTHONHASHSEED" % (call_name(c), short(src, 80)),
+                       construct="%s(%s) with %s = %s" % (call_name(c), U(a), U(a), short(src, 80)))
+            else:
+                cx.ok(c, "%s is configured from an ordered expression" % call_name(c), construct="%s(%s)" % (call_name(c), short(src, 60)))
     # fixed stage order: redact, allow-list, obfuscators
     cc = cm.func("Cleaner.clean_content", "C10.R1")
     plist, pdef = shape.stage_list_name(cc)
@@ -170,3 +181,7 @@ def run(cx):
     cx.guard(r1_hash_free)
     cx.guard(r2_one_to_one)
     cx.guard(r3_empty)
+    # a function of content and configuration only: cleaning must not write into its own configuration (the allow-list budgets
+    # live in a table shared through the filter cache; consuming them in place makes the next call see a different configuration)
+    from . import c07
+    cx.borrow(c07.r7_copy_before_mutation, "C07.R7", "C10.R4", "cleaning never modifies the configuration it was given (budget bookkeeping works on private copies; C07.R7)", [])
